@@ -110,7 +110,10 @@ func (d *Driver) processServerCapabilities() error {
 		d.serverCapabilities = append(d.serverCapabilities, string(match[1]))
 	}
 
-	// extract session id if it exists in the hello message
+	// extract session id if it exists in the hello message (a session opened earlier on this driver may
+	// have left one behind)
+	d.sessionID = 0
+
 	sessionIDMatch := ncPatterns.sessionID.FindSubmatch(b)
 	if len(sessionIDMatch) != numSessionIDMatches {
 		return nil
